@@ -63,6 +63,10 @@ def run(tier):
               "args": {"text": c["text_used"], "goals": [[[x, k] for x, k in g] for g in c["goals"][:3]], "param": p,
                        "subs": polar_subs(c), "nmax": nmax}} for c, p in jobs]
     outs = run_tasks(tasks, timeout=80 if quick else 240, progress=25) if lean_ok else []
+    cli_tasks = [{"fn": "harness.tasks.sens:sensitivity_cli",
+                  "args": {"text": c["text_used"], "goals": [[[x, k] for x, k in g] for g in c["goals"][:3]], "param": p,
+                           "subs": polar_subs(c), "nmax": nmax}} for c, p in jobs]
+    cli_outs = run_tasks(cli_tasks, timeout=80 if quick else 240, progress=None) if lean_ok else []
     reqs = []
     for c, p in jobs:
         p0 = Fr(c["params"][p])
@@ -149,6 +153,34 @@ def run(tier):
                                 "derivative": [H.fr_str(d) for d in exact_d]}, limit=4)
             if len(results) == 2 and results["diff_closed_form"] != results["diff_recurrences"]:
                 chk.count("methods-disagree")
+            # the same two methods through the real SensitivityAction (printed lines)
+            co = cli_outs[ji] if ji < len(cli_outs) else None
+            if co and co["status"] == "ok":
+                for method in ("cli_sens_diff", "cli_sens"):
+                    m = co["result"].get(method, {})
+                    if "error" in m:
+                        chk.count(f"{method}:refused:{m['error'].get('etype')}")
+                        continue
+                    rows = m.get("rows", [])
+                    if gi >= len(rows) or "values" not in rows[gi]:
+                        chk.count(f"{method}:unparsed")
+                        continue
+                    bad = None
+                    for n, (pv, want) in enumerate(zip(rows[gi]["values"], exact_d)):
+                        tag, sv = pv
+                        if tag == "undefined-limit" and Fr(sv) == want:
+                            continue
+                        if tag != "q" or Fr(sv) != want:
+                            bad = (n, sv, H.fr_str(want), tag)
+                            break
+                    chk.count(f"{method}:compared")
+                    if bad:
+                        n, sv, want, tag = bad
+                        chk.violation(f"{method} (printed by the sensitivity action): d/d{p} E({g['mono']}) at n={n}: printed {sv} ({tag}), exact {want}",
+                                      {"case": pipeline.case_to_json(c), "text": c["text_used"], "param": p, "goal": g["mono"],
+                                       "method": method, "n": n, "printed_line": rows[gi]["raw"], "reported": sv, "exact": want})
+                    else:
+                        n_ok += 1
     chk.obligation("correspondence:sensitivities-vs-exact-derivative", lean_ok and n_ok > 0 and
                    chk.counts.get("harness-error", 0) == 0, {"method_goal_pairs_equal": n_ok})
     chk.assumptions = ["E(M)(n) is a polynomial of degree <= 10 in the parameter (verified per case by two spare points)",
